@@ -46,6 +46,11 @@
 
 //Runqueue length
 #define INITIAL_QUEUE_SIZE (65536*2)
+#ifdef MYTH_VERIF_QUEUE_SIZE
+/* small capacities let verification runs reach the re-centring paths */
+#undef INITIAL_QUEUE_SIZE
+#define INITIAL_QUEUE_SIZE MYTH_VERIF_QUEUE_SIZE
+#endif
 
 //Wrap and multipelx I/O functions
 #define MYTH_WRAP_SOCKIO 0
@@ -310,5 +315,8 @@
    experimental locality-aware(?) scheduler
    ------------------ */
 #define EXPERIMENTAL_SCHEDULER 0
+
+/* verification seams (no-ops unless MYTH_VERIF is defined) */
+#include "myth_verif.h"
 
 #endif /* MYTH_CONFIG_H_ */
